@@ -286,7 +286,9 @@ fn emit_expression_ctx(
             out.push(json!("/str"));
         }
         Expression::Variable(name) => {
-            if let Some(path) = scope.and_then(|s| s.resolve_choice_label(name)) {
+            if let Some(value) = context.and_then(|ctx| ctx.consts.get(name)) {
+                emit_expression_ctx(value, out, context, scope);
+            } else if let Some(path) = scope.and_then(|s| s.resolve_choice_label(name)) {
                 out.push(json!({"CNT?": path}))
             } else if let Some(path) = context.and_then(|ctx| ctx.qualified_choice_labels.get(name))
             {
